@@ -17,7 +17,8 @@ for s in $seeds; do
   for c in $checks; do
     out=$(cd $VS && VERIF_REPO=$SR timeout 3000 tools/check $c --tier ${TIER:-quick} 2>&1); rc=$?
     if [ $rc -eq 1 ] && echo "$out" | grep -q "^VIOLATION property=$c"; then
-      line="$s on $c: DETECTED $(echo "$out" | grep -A1 '^VIOLATION' | head -2 | tr '\n' ' ' | cut -c1-400)"
+      keys=$(echo "$out" | grep '^VIOLATION' | sed -E 's|.*replays/[A-Za-z0-9]+_(.*)_[0-9]+\.json(.*)|\1\2|' | sed 's/ no-failing-input-found/(no-input)/' | tr '\n' ',' | cut -c1-300)
+      line="$s on $c: DETECTED $(echo "$out" | grep -A1 '^VIOLATION' | head -2 | tr '\n' ' ' | cut -c1-400) ALLKEYS=$keys"
     else line="$s on $c: MISSED (rc=$rc) $(echo "$out" | tail -1 | cut -c1-200)"; fi
     echo "$line" | tee -a /verif/seeded/RESULTS.txt
   done
